@@ -16,6 +16,45 @@ from symx.fs import SymFS
 OPTS = list(itertools.product([True, False], repeat=4))   # headers, shape, data, coords
 
 
+def cli_argv(opts, limit, nofail):
+    # -nh / -ns switch the header / shape checks OFF, -bd / -bc switch the data / coordinate checks ON
+    return (['taste', 'plt'] + ([] if opts[0] else ['--no_bin_headers']) + ([] if opts[1] else ['--no_bin_shape']) + (['--bin_data'] if opts[2] else [])
+            + (['--box_coords'] if opts[3] else []) + (['--limit_level', str(limit)] if limit is not None else []) + (['--nofail'] if nofail else []))
+
+
+def taste_cli(mods, ref, opts, limit, nofail, ctx):
+    """The command-line entry point on a well-formed plotfile: it must end normally (no exception, exit status 0 / None) and
+    the Taster it builds must evaluate true."""
+    import sys
+    fs = SymFS()
+    ref.write_symfs(fs, '/work/plt')
+    climod = mods['amr_kitchen.taste.cli']
+    Real = climod.Taster
+    built = []
+
+    def spy(*a, **k):
+        t = Real(*a, **k)
+        built.append(t)
+        return t
+    with patch.Patched(mods, fs), common.quiet() as buf:
+        old_argv = sys.argv
+        sys.argv = cli_argv(opts, limit, nofail)
+        climod.Taster = spy
+        try:
+            climod.main()
+        except SystemExit as e:
+            if e.code not in (None, 0):
+                return 'raised', 'exit status %r' % (e.code,), fs
+        except Exception as e:
+            return 'raised', '%s: %s' % (type(e).__name__, str(e)[:160]), fs
+        finally:
+            sys.argv = old_argv
+            climod.Taster = Real
+    if not built:
+        return 'bad', 'the command line built no Taster', fs
+    return ('good' if bool(built[-1]) else 'bad'), buf.getvalue()[-300:], fs
+
+
 def taste_once(mods, ref, opts, limit, nofail, ctx, mutate=None, schedule=None, prior=None):
     """Returns (outcome, detail): outcome in 'good', 'bad', 'raised'."""
     Taster = mods['amr_kitchen.taste.taste'].Taster
@@ -74,6 +113,26 @@ def run_case(case):
                         if sig not in viol:
                             viol[sig] = {'signature': sig, 'what': obl.failed[0][0], 'opts': list(opts), 'limit': limit, 'nofail': nofail}
 
+    # the command line: every switch flipped, the defaults, data check alone - failing and non-failing mode
+    for opts, limit, nofail in [((False, False, True, True), None, False), ((True, True, False, False), ref.nlev - 1, True), ((True, False, True, False), 0, False),
+                                ((False, True, False, True), None, True)]:
+        def cpath(ctx, opts=opts, limit=limit, nofail=nofail):
+            obl = Obl(ctx)
+            outcome, detail, _ = taste_cli(mods, ref, opts, limit, nofail, ctx)
+            obl.total += 1
+            if outcome == 'good':
+                obl.trivial += 1
+            else:
+                obl.failed.append(('`%s` on a well-formed plotfile: %s (%s)' % (' '.join(cli_argv(opts, limit, nofail)), outcome, detail.strip().splitlines()[-1] if detail.strip() else ''), None))
+            return obl
+        results, exhaustive, stats = core.explore(cpath, max_paths=64)
+        res.add_explore(results, exhaustive, stats)
+        nruns += 1
+        for ctx, obl in results:
+            res.add_obl(obl)
+            if obl.failed and 'C03/cli' not in viol:
+                viol['C03/cli'] = {'signature': 'C03/cli', 'what': obl.failed[0][0], 'opts': list(opts), 'limit': limit, 'nofail': nofail, 'cli': cli_argv(opts, limit, nofail)}
+
     # histories: a validation with other options ran before in the same process (the judged one must still say good)
     HIST = [(((True, True, True, True), None), (True, True, False, False), None, False), (((True, True, True, False), 0), (True, True, True, True), None, True),
             (((False, False, False, True), None), (True, False, True, False), ref.nlev - 1, True)]
@@ -126,6 +185,12 @@ def run_case(case):
                "with contextlib.redirect_stdout(io.StringIO()):\n" + pre +
                "    t = Taster(os.path.join(IN, 'plt'), limit_level=%r, binary_headers=%r, binary_shape=%r, binary_data=%r, boxes_coordinates=%r, nofail=%r)\n"
                "RESULT = 1.0 if bool(t) else 0.0\n" % (v['limit'], o[0], o[1], o[2], o[3], v['nofail']))
+        if v.get('cli'):
+            run = ("import sys, contextlib, io\nfrom amr_kitchen.taste import cli\nbuilt = []\nReal = cli.Taster\n"
+                   "def spy(*a, **k):\n    t = Real(*a, **k)\n    built.append(t)\n    return t\n"
+                   "cli.Taster = spy\nsys.argv = ['taste', os.path.join(IN, 'plt')] + %r\nRESULT = 0.0\n"
+                   "with contextlib.redirect_stdout(io.StringIO()):\n    try:\n        cli.main()\n    except SystemExit as e:\n        assert e.code in (None, 0), 'exit status %%r' %% (e.code,)\n"
+                   "RESULT = 1.0 if built and bool(built[-1]) else 0.0\n" % (v['cli'][2:],))
         d = replay_lib.make_tool_replay('C03', sig, v['what'], {'plt': (fs, '/work/plt')}, run,
                                         {'kind': 'value', 'close': 1.0})
         status, out = common.run_replay(d)
